@@ -195,6 +195,31 @@ def check(ctx: Ctx) -> None:
                                                   "can see a plain EOF / clean close and the error surfaces late or never",
                                  construct=f"{fi.short}: error stored after {norm(w.ast)[:50]}")
 
+    with ctx.obligation("C07.g", "error-text-decoding") as ob:
+        # the error text of CHANNEL_CLOSE_ERROR is written with dumps_internal (fixed string settings) on every sending side:
+        # the handler must decode it with the same internal settings, not with a gateway's/channel's reconfigurable ones
+        from ._chan import message_registry as _mr
+        from ..terms import State as _State, const as _c, evaluator as _ev
+        regm = _mr(repo)
+        code = repo.cls("Message").consts.get("CHANNEL_CLOSE_ERROR")
+        ob.require(code in regm, "CHANNEL_CLOSE_ERROR has no registered handler")
+        h = repo.func(regm[code][1].qualname)
+        p0 = h.params()[0]
+        init = _State()
+        init.env[f"{p0}.msgcode"] = _c(code)
+        evh = _ev(repo, h)
+        nld = 0
+        for (pth, st_) in evh.run(init=init, limit=2000):
+            for e in st_.events:
+                if e.kind == "call" and (e.callee or "").split(".")[-1] in ("loads_internal", "loads"):
+                    nld += 1
+                    ok = e.callee.endswith("loads_internal") and e.args == (("sym", f"{p0}.data"),) and not e.kwargs
+                    ob.site(h, e.node, "error text decoded with the internal string settings", ok=ok)
+                    if not ok:
+                        ob.violation(h, e.node, "the error text of CHANNEL_CLOSE_ERROR is decoded with reconfigurable string settings: after reconfigure(py3str_as_py2str=True) it "
+                                                "arrives as bytes, the receiver thread dies on it and the peer sees EOFError instead of RemoteError")
+        ob.require(nld >= 1, "the CHANNEL_CLOSE_ERROR handler does not decode its payload")
+
     with ctx.obligation("C07.e", "after-items-once") as ob:
         fg = repo.func(f"{GB}.Channel._getremoteerror")
         from ..util import xtext as _xt
@@ -236,3 +261,7 @@ def check(ctx: Ctx) -> None:
                 ob.site(fw, nd.ast, "waitclose() consults the error only once _receiveclosed is set", ok=ok)
                 if not ok:
                     ob.violation(fw, nd.ast, "waitclose() consumes the stored error although the channel has not been closed yet")
+    # a failed callback is retired together with its channel: the closed transition unregisters on every path
+    from .C03 import check_transition_complete
+    check_transition_complete(ctx, "C07.h")
+
